@@ -1,14 +1,21 @@
 #!/bin/sh
-# try_seed.sh <PROP> <patch.diff> : apply a seeded change to /repo, run the quick check, undo, summarise
-P=$1; D=$2
+# try_seed.sh <PROP> <patch.diff> [tier]: apply a seeded change to /repo, run the check, undo, summarise.
+# Holds build/repo.lock exclusively so that no other check observes the patched tree.
+P=$1; D=$(readlink -f "$2"); T=${3:-quick}
+mkdir -p /verif/build
+exec 9>/verif/build/repo.lock
+flock -x 9
+if [ -n "$(git -C /repo status --short --untracked-files=no)" ]; then echo "/repo is not clean"; exit 2; fi
 rm -f /verif/replays/$P-*
 git -C /repo apply "$D" || { echo "patch does not apply"; exit 2; }
-timeout 2400 /verif/bin/vcheck $P 2>&1 | tail -3
+VERIF_REPO_LOCKED=1 timeout 3000 /verif/bin/vcheck $P --tier $T 2>&1 | tail -4
 git -C /repo checkout -- .
 python3 - "$P" <<'PY'
 import json,glob,sys
 for f in sorted(glob.glob('/verif/replays/%s-*.json'%sys.argv[1])):
     e=json.load(open(f))
-    print("  replay:", e.get('what','')[:160].replace("\n"," "), "| input:", str(e.get('input', e.get('first_disagreement','')))[:260].replace("\n"," "), "| found_input:", e.get('failing_input_found'))
+    print("  replay:", e.get('what','')[:200].replace("\n"," "), "| input:", str(e.get('input', e.get('first_disagreement','')))[:300].replace("\n"," "), "| found_input:", e.get('failing_input_found'))
 PY
 rm -f /verif/replays/$P-*
+# the evidence file now describes the patched tree: restore the committed one
+git -C /verif checkout -- evidence/$P.json 2>/dev/null
